@@ -77,7 +77,13 @@ The resulting trees are star trees to which we added one biparition. All branch 
 		}()
 
 		var wg sync.WaitGroup
-		for cpu := 0; cpu < rootCpus; cpu++ {
+		// The records written to the standard output carry no identifier: a
+		// single worker writes them one after the other, in branch order
+		nworkers := rootCpus
+		if outtreefile == "stdout" || outtreefile == "-" {
+			nworkers = 1
+		}
+		for cpu := 0; cpu < nworkers; cpu++ {
 			wg.Add(1)
 			go func() {
 				defer wg.Done()
